@@ -16,6 +16,7 @@
 #include <cstdlib>
 #include <functional>
 #include <limits>
+#include <deque>
 #include <map>
 #include <set>
 #include <sstream>
@@ -31,6 +32,9 @@
 #endif
 
 namespace sym {
+#ifdef SYMT_TRIVIAL
+#define Real RealImpl  // the number implementation; sym::Real is then the trivially copyable handle defined at the end of this namespace
+#endif
 
 // ------------------------------------------------------------------ bookkeeping shared by both builds
 struct Violation {
@@ -801,6 +805,68 @@ inline Real limit_constant(const char *name) {
   Engine::get().assume(gt(v, Real(0)));
   return v;
 }
+#endif
+#ifdef SYMT_TRIVIAL
+#undef Real
+// C19 archetype, second flavour: a TRIVIALLY COPYABLE scalar (a 4-byte handle into a table of numbers) whose all-zero object
+// representation is NOT the number zero: a handle of 0 - what memset(…, 0, …) or value-initialised raw storage produces - or any
+// other byte pattern that was never handed out denotes an arbitrary number (a fresh unconstrained symbol at every read). memcpy of
+// such scalars is legitimate (it copies the value); relying on zeroed bytes being static_cast<T>(0) is not.
+class Real {
+  uint32_t h;
+  static std::deque<RealImpl> &tab() {
+    static std::deque<RealImpl> t(1);
+    return t;
+  }
+  static uint32_t put(const RealImpl &r) {
+#ifndef SYMT_CONCRETE
+    // one slot per distinct term (z3 hash-conses terms, so re-executed paths reuse their slots)
+    static std::map<std::pair<unsigned, FacMS>, uint32_t> known;
+    auto key = std::make_pair((unsigned)Z3_get_ast_id(ctx(), r.num_()), r.den_());
+    auto it = known.find(key);
+    if (it != known.end()) return it->second;
+    tab().push_back(r);
+    known.emplace(key, (uint32_t)(tab().size() - 1));
+#else
+    tab().push_back(r);
+#endif
+    return (uint32_t)(tab().size() - 1);
+  }
+
+ public:
+  Real() : h(put(RealImpl())) {}
+  template <typename I, std::enable_if_t<std::is_integral_v<I>, bool> = true>
+  explicit Real(I i) : h(put(RealImpl(i))) {}
+  Real(const RealImpl &r) : h(put(r)) {}
+  Real(const Real &) = default;
+  Real &operator=(const Real &) = default;
+  const RealImpl &get() const {
+    if (h == 0 || h >= tab().size()) {
+      tab().push_back(RealImpl::var("rawbytes" + std::to_string(Engine::get().uninit_counter++)));
+      return tab().back();
+    }
+    return tab()[h];
+  }
+  operator const RealImpl &() const { return get(); }
+  static Real var(const std::string &nm) { return Real(RealImpl::var(nm)); }
+  static Real frac(long long a, long long b) { return Real(RealImpl::frac(a, b)); }
+  Real operator+(const Real &o) const { return Real(get() + o.get()); }
+  Real operator-(const Real &o) const { return Real(get() - o.get()); }
+  Real operator*(const Real &o) const { return Real(get() * o.get()); }
+  Real operator/(const Real &o) const { return Real(get() / o.get()); }
+  Real operator-() const { return Real(-get()); }
+  Real &operator+=(const Real &o) { return *this = *this + o; }
+  Real &operator-=(const Real &o) { return *this = *this - o; }
+  Real &operator*=(const Real &o) { return *this = *this * o; }
+  Real &operator/=(const Real &o) { return *this = *this / o; }
+  bool operator<(const Real &o) const { return get() < o.get(); }
+  bool operator<=(const Real &o) const { return get() <= o.get(); }
+  bool operator>(const Real &o) const { return get() > o.get(); }
+  bool operator>=(const Real &o) const { return get() >= o.get(); }
+  bool operator==(const Real &o) const { return get() == o.get(); }
+  bool operator!=(const Real &o) const { return get() != o.get(); }
+};
+static_assert(std::is_trivially_copyable_v<Real> && sizeof(Real) == 4, "the handle archetype must be trivially copyable");
 #endif
 }  // namespace sym
 
